@@ -122,7 +122,7 @@ def step (s : S) (line : String) : S × String :=
     | none => (s, "bad-op")
     | some d =>
       match a.textize d s.L with
-      | some t => ({ s with t := some t }, s!"ok {hx t}")
+      | some t => ({ s with t := some t }, s!"ok {hx t} nul=1")
       | none => (s, "fault")
   else if op == "textizen" then
     match s.d, argNat? ws "off", argNat? ws "L" with
